@@ -280,6 +280,9 @@ func runE2E(r *gen.Rand, repos []crepo, queries []srcQ, repeats int) {
 				if !ok {
 					continue
 				}
+				for _, f := range runs[0] {
+					digest = append(digest, fmt.Sprintf("%s|%s|%s|%s", sq.Src, optName, f.Key, bits(f.Score)))
+				}
 				// the same observation through the Lean statement of the property
 				w.Emit(gen.Case{In: rankLine(runs[0]), Impl: "ok", Class: class, Nontrivial: len(runs[0]) >= 2, Detail: det})
 				w.Count(fmt.Sprintf("e2e-files>=4:%v", len(runs[0]) >= 4), 1)
@@ -306,5 +309,9 @@ func genE2E(r *gen.Rand, nQueries, repeats int) {
 	queries = append(queries, parseQ("@boost1"), parseQ("@boost2"))
 	runE2E(r, repos, queries, repeats)
 }
+
+// digest: (query, options, file, score bits) of every end-to-end search of this process, compared with a second
+// process running the same searches (different map seeds, scheduler, addresses)
+var digest []string
 
 var _ = sort.Strings
